@@ -50,6 +50,24 @@ def measure(g, kw):
         P.append(('below-face', f"contour dips {-np.min(cp[:, 1]):.6g} below the roll face"))
     if not LineString(cp).is_simple:
         P.append(('simple', "contour line is not simple"))
+    # requested values that show directly in the polyline: the centre vertex at depth - indent, the face rising (or falling) with the pad angle
+    if 'depth' in kw and len(cp) % 2 == 1:
+        yc = float(cp[len(cp) // 2, 1])
+        want = float(kw['depth']) - float(kw.get('indent', 0) or 0)
+        if abs(float(cp[len(cp) // 2, 0])) <= tol and abs(yc - want) > 1e-6 * size:
+            P.append(('requested', f"requested depth = {kw['depth']}, indent = {kw.get('indent', 0)}: the centre vertex of the contour lies at {yc:.9g}, not at depth - indent = {want:.9g}"))
+    if kw.get('pad') is not None or kw.get('rel_pad') is not None:
+        pad = float(kw['pad']) if kw.get('pad') is not None else float(kw['rel_pad']) * float(g.usable_width)
+        reach = float(cp[-1, 0]) - float(g.z1)          # z1: where the corner rounding r1 ends and the padded face begins
+        want = pad * math.cos(math.radians(float(kw.get('pad_angle', 0) or 0)))
+        if abs(reach - want) > 1e-9 * size:
+            P.append(('requested', f"requested {'pad = ' + str(kw['pad']) if kw.get('pad') is not None else 'rel_pad = ' + str(kw['rel_pad'])}: the padded face of the contour is {reach:.9g} "
+                      f"long (in z), the padding calls for {want:.9g}"))
+    if kw.get('pad_angle') and len(cp) >= 2 and abs(cp[-1, 0] - cp[-2, 0]) > tol:
+        slope = (cp[-1, 1] - cp[-2, 1]) / (cp[-1, 0] - cp[-2, 0])
+        want = math.tan(math.radians(float(kw['pad_angle'])))
+        if abs(slope - want) > 1e-6 * max(1.0, abs(want)):
+            P.append(('requested', f"requested pad_angle = {kw['pad_angle']} degrees: the face of the contour has slope {slope:.9g}, tan(pad_angle) = {want:.9g}"))
     if abs(2 * g.z2 - g.usable_width) > tol or abs(g.y2) > tol:
         P.append(('usable-width', "the face corner (z2, y2) is not (usable_width / 2, 0)"))
     # flank tangent and face line through (usable_width / 2, 0)
@@ -232,6 +250,18 @@ def streams(chk, rng):
                 if blocking(chk):
                     return built
                 judge(chk, name, kw2, 'pad')
+    # the padding of the face in both spellings, several values one after the other on the same groove (what was built before must not matter)
+    for name, kw in CATALOGUE[::5]:
+        if kw.get('pad_angle'):
+            continue
+        g0, _ = try_build(name, kw)
+        if g0 is None:
+            continue
+        for spelling, vals in (('pad', (0.05 * g0.usable_width, 0.3 * g0.usable_width, 0.11 * g0.usable_width)), ('rel_pad', (0.1, 0.45, 0.2))):
+            for v in vals:
+                if blocking(chk):
+                    return built
+                judge(chk, name, dict(kw, **{spelling: v}), 'pad')
     # near misses: a small even ground (0.4 .. 5 % of the usable width) squeezed into a groove that is otherwise fully determined - the arcs then
     # miss each other by a small step; returned => well-formed, and (config twin) the verdict does not depend on unrelated settings
     for name, kw in CATALOGUE:
